@@ -1,10 +1,14 @@
 (* Extraction of the C08 models and layouts to OCaml (ExtrOcamlBasic only). *)
 From EP Require Import Base.Bytes Roundtrip.Common Roundtrip.Spec.
-From EP Require Roundtrip.Tcp.
+From EP Require Roundtrip.Tcp Roundtrip.Ipv4 Roundtrip.Frag Checksum.Model.
 From Coq Require Import Extraction ExtrOcamlBasic.
 Extraction Language OCaml.
 Extraction "m_c08.ml"
   N.add N.mul N.of_nat len masked ones zeros
   Tcp.to_bytes Tcp.write Tcp.header_len Tcp.from_slice Tcp.read Tcp.opt_try_from_slice
   Tcp.tcp_eqb Tcp.keep_mask Tcp.opt_as_slice
-  tcp_layout.
+  Ipv4.ip4_to_bytes Ipv4.ip4_write_raw Ipv4.ip4_write Ipv4.ip4_header_len Ipv4.ip4_from_slice Ipv4.ip4_read
+  Ipv4.i4o_try_from Ipv4.ip4_eqb Ipv4.ip4_keep_mask Ipv4.i4o_as_slice Ipv4.wf_ip4
+  Frag.frag_to_bytes Frag.frag_write Frag.frag_header_len Frag.frag_from_slice Frag.frag_read
+  Frag.wf_frag Frag.frag_keep_mask
+  tcp_layout ipv4_layout frag_layout.
